@@ -264,3 +264,101 @@ def _show(r):
 
     s = poly(r.num) if r.den == {(): 1} else f"({poly(r.num)})/({poly(r.den)})"
     return s if len(s) < 300 else s[:300] + "..."
+
+
+# ---- GEN-DEFS: coefficient / geometry definitions interpreted on sample table data -------------------------------
+
+DEFS = "ffcx.codegeneration.definitions"
+
+
+def _defs_world(w: _World, entity_type, integral_type, coef_offsets, num_coord_dofs):
+    symbols = Node("FFCXBackendSymbols", coefficients=w.sym("w"), coordinate_dofs=w.sym("coordinate_dofs", "DataType.REAL"),
+                   entity_local_index=w.sym("entity_local_index", "DataType.INT"), quadrature_permutation=w.sym("quadrature_permutation", "DataType.INT"),
+                   quadrature_loop_index=w.sym("iq", "DataType.INT"), coefficient_dof_sum_index=w.sym("ic", "DataType.INT"),
+                   coefficient_offsets=dict(coef_offsets), coefficient_numbering={c: i for i, c in enumerate(coef_offsets)}, element_tables={})
+    access = Node("FFCXBackendAccess", symbols=symbols, entity_type=entity_type, integral_type=integral_type)
+    defs = Node("FFCXBackendDefinitions", symbols=symbols, access=access, entity_type=entity_type, integral_type=integral_type, options={})
+    mesh = Node("Mesh", ufl_coordinate_element=_PyCall(lambda: Node("CoordinateElement", _sub_element=Node("Element", dim=num_coord_dofs))))
+    w.I.overrides["ufl.domain.extract_unique_domain"] = _PyCall(lambda t: mesh)
+    return defs, symbols
+
+
+@rule(
+    "GEN-DEFS",
+    ["C05", "C02", "C08"],
+    "FFCXBackendDefinitions.coefficient / jacobian / spatial_coordinate (with coefficient_dof_access, table_access, "
+    "symbols.entity) are interpreted from source on sample table data: the defined value must be "
+    "sum_ic w[offset_of_coefficient + block_size*ic + begin] * T[perm][entity][q][ic], resp. "
+    "sum_ic coordinate_dofs[3*ic + component (+ 3*num_nodes for '-')] * T[...], with every read inside the extents the "
+    "UFCx contract gives w (sum of element dimensions, doubled on interior facets), coordinate_dofs (3 x nodes, doubled) "
+    "and the tables",
+    min_instances=9,
+)
+def gen_defs(repo, res):
+    w = _World(repo)
+    w.I.obj_classes["FFCXBackendDefinitions"] = DEFS
+    dm = repo.mod(DEFS)
+    fco = dm.func("FFCXBackendDefinitions.coefficient")
+    fja = dm.func("FFCXBackendDefinitions.jacobian")
+    fsx = dm.func("FFCXBackendDefinitions.spatial_coordinate")
+    res.functions.update({fco.key, fja.key, fsx.key, dm.func("FFCXBackendDefinitions._define_coordinate_dofs_lincomb").key,
+                          repo.mod("ffcx.codegeneration.symbols").func("FFCXBackendSymbols.coefficient_dof_access").key})
+    f0, f1 = Node("Coefficient", name="f"), Node("Coefficient", name="g")
+    T = w.table
+    # (label, entity, integral type, function, table, restriction, coefficient, dims of (f, g), expected source indices)
+    cases = [
+        ("coefficient, cell, P1", "cell", "cell", fco, T("FE0", (1, 1, NQ, 3)), None, f0, (3, 6)),
+        ("coefficient, cell, second coefficient, blocked component 1", "cell", "cell", fco, T("FE1", (1, 1, NQ, 3), offset=1, bs=2), None, f1, (3, 6)),
+        ("coefficient, interior facet, '-' side, permuted table", "facet", "interior_facet", fco, T("FE2", (2, 3, NQ, 3), offset=3, permuted=True), "-", f1, (3, 3)),
+        ("coefficient, interior facet, '+' side", "facet", "interior_facet", fco, T("FE2", (2, 3, NQ, 3), offset=0, permuted=True), "+", f0, (3, 3)),
+        ("coefficient, exterior facet, piecewise table", "facet", "exterior_facet", fco, T("FE3", (1, 3, 1, 3), ttype="piecewise"), None, f0, (3, 3)),
+        ("jacobian component, cell", "cell", "cell", fja, T("FE4", (1, 1, 1, 3), offset=1, ttype="piecewise"), None, None, (3, 3)),
+        ("jacobian component, interior facet '-'", "facet", "interior_facet", fja, T("FE5", (1, 3, NQ, 3), offset=0), "-", None, (3, 3)),
+        ("jacobian component, interior facet '+'", "facet", "interior_facet", fja, T("FE5", (1, 3, NQ, 3), offset=2), "+", None, (3, 3)),
+        ("spatial coordinate, exterior facet", "facet", "exterior_facet", fsx, T("FE6", (1, 3, NQ, 3), offset=1), None, None, (3, 3)),
+    ]
+    for label, etype, itype, fn, td, restr, coef, dims in cases:
+        key = f"{fn.key}:{label}"
+        res.ob(key)
+        width = 2 if itype == "interior_facet" else 1
+        offsets = {f0: 0, f1: width * dims[0]}
+        nnodes = 3
+        defs, symbols = _defs_world(w, etype, itype, offsets, nnodes)
+        symbols.f["element_tables"][td.f["name"]] = w.sym(td.f["name"], "DataType.REAL")
+        mt = Node("ModifiedTerminal", terminal=coef if coef is not None else Node("SpatialCoordinate"), restriction=restr, expr=None)
+        outsym = w.sym("val")
+        try:
+            sec = w.I.call_f(fn, [defs, mt, td, w.rule, outsym])
+        except Raised as e:
+            res.fail(key, f"{fn.qualname} raises ({e.what}) on `{label}`", dm.line(fn.node))
+            continue
+        if isinstance(sec, list) and not sec:
+            res.fail(key, f"{fn.qualname} emits no definition for `{label}`", dm.line(fn.node))
+            continue
+        extents = {"w": (width * (dims[0] + dims[1]),), "coordinate_dofs": (width * 3 * nnodes,), "entity_local_index": (2,), "quadrature_permutation": (2,),
+                   td.f["name"]: td.f["values"].f["shape"]}
+        iq = w.sym("iq", "DataType.INT")
+        fv = td.f
+        nd_ = fv["values"].f["shape"][3]
+        for q in range(NQ):
+            ex = Exec(("val",), concrete=CONCRETE, extents=extents)
+            try:
+                ex.run(w.I.construct("ForRange", [iq, q, q + 1, [sec]], {}))
+            except ExecError as e:
+                res.fail(key, f"`{label}`: {e}", dm.line(fn.node))
+                break
+            got = ex.result().get(("val", ()))
+            perm = CONCRETE["quadrature_permutation"][(1 if restr == "-" else 0,)] if fv["is_permuted"] else 0
+            ent = 0 if (fv["is_uniform"] or etype == "cell") else CONCRETE["entity_local_index"][(1 if restr == "-" else 0,)]
+            qq = 0 if fv["is_piecewise"] else q
+            want = Rat.const(0)
+            for ic in range(nd_):
+                tv = Rat.var(f"{fv['name']}[{perm}, {ent}, {qq}, {ic}]")
+                if coef is not None:
+                    src = Rat.var(f"w[{offsets[coef] + fv['block_size'] * ic + fv['offset']}]")
+                else:
+                    src = Rat.var(f"coordinate_dofs[{3 * ic + fv['offset'] + (3 * nnodes if restr == '-' else 0)}]")
+                want = want + src * tv
+            if got is None or not (got == want):
+                res.fail(key, f"`{label}` at point {q}: defined value is {_show(got) if got is not None else 'undefined'}, expected {_show(want)}", dm.line(fn.node))
+                break
